@@ -383,7 +383,7 @@ def job(n, seed, max_segments=10):
 def jobs(tier, seed):
     if tier == "quick":
         return [{"fn": "vf.props.c10:job", "args": {"n": 60, "seed": seed * 1000 + s}} for s in range(16)]
-    js = [{"fn": "vf.props.c10:job", "args": {"n": 1500, "seed": seed * 1000 + s}} for s in range(12)]
+    js = [{"fn": "vf.props.c10:job", "args": {"n": 600, "seed": seed * 1000 + s}} for s in range(12)]
     js += [{"fn": "vf.props.c10:job", "args": {"n": 12, "seed": seed * 1000 + 50 + s, "max_segments": 1200}} for s in range(4)]   # hours of virtual time
     return js
 
